@@ -12,6 +12,7 @@ verus! {
 //@include prelude/bx.rs
 //@source yui-homology/src/utils/chain_reducer.rs
 //@include units/schur/model.inc
+//@include units/chain_vecs/spec.inc
 
 impl Schur {
 //@contract-of units/schur/contract.rs from_partial_triangular variant=B
@@ -30,7 +31,7 @@ pub fn dsub_(a: Deg, b: Deg) -> (r: Deg) ensures r.g@ == a.g@ - b.g@ { Deg { g: 
 /// HashMap<I, SpMat<R>> / HashMap<I, Trans<R>> / HashMap<I, Vec<SpVec<R>>>  (ASSUMED std contract; values by their abstract content)
 pub struct MatMap { pub m: Ghost<Map<int, int>> }
 pub struct TransMap { pub m: Ghost<Map<int, (int, int)>> }
-pub struct VecsMap { pub m: Ghost<int> }
+pub struct VecsMap { pub m: Ghost<Map<int, Seq<int>>> }
 impl MatMap {
     #[verifier::external_body] pub fn get(&self, i: &Deg) -> (r: Option<&SpMat>) ensures r.is_some() == self.m@.dom().contains(i.g@), r.is_some() ==> r.unwrap().m@ == self.m@[i.g@] { unimplemented!() }
     #[verifier::external_body] pub fn insert(&mut self, i: Deg, a: SpMat) -> (o: Option<SpMat>) ensures final(self).m@ == old(self).m@.insert(i.g@, a.m@) { unimplemented!() }
@@ -452,7 +453,7 @@ impl ChainReducer {
             let m1 = if m0.dom().contains(i0) { m0.insert(i0, mrows(mmul(pm(q.p@), m0[i0]), r as int, nr(m0[i0]))) } else { m0 };
             let m2 = m1.insert(i.g@, s.m@);
             let m3 = if m0.dom().contains(i2) { m2.insert(i2, mcols(mmul(m0[i2], pmi(p.p@)), r as int, nc(m0[i2]))) } else { m2 };
-            &&& final(self).mats.m@ == m3 && final(self).d_deg == old(self).d_deg && final(self).trans == old(self).trans
+            &&& final(self).mats.m@ == m3 && final(self).d_deg == old(self).d_deg && final(self).trans == old(self).trans && final(self).vecs == old(self).vecs
             &&& (m0.dom().contains(i0) ==> nr(m0[i0]) == pdim(q.p@)) && (m0.dom().contains(i2) ==> nc(m0[i2]) == pdim(p.p@))
         }),
     //@body impl/ChainReducer/update_mats
@@ -462,7 +463,7 @@ impl ChainReducer {
         ensures r.is_some() == old(self).trans.m@.dom().contains(i.g@),
             r.is_some() ==> ((r.unwrap().f@, r.unwrap().b@) == old(self).trans.m@[i.g@] && final(self).trans.m@ == old(self).trans.m@.insert(i.g@, ((*final(r.unwrap())).f@, (*final(r.unwrap())).b@))),
             r.is_none() ==> final(self).trans.m@ == old(self).trans.m@,
-            final(self).mats == old(self).mats, final(self).d_deg == old(self).d_deg,
+            final(self).mats == old(self).mats, final(self).d_deg == old(self).d_deg, final(self).vecs == old(self).vecs,
     //@body impl/ChainReducer/trans_mut
     //@+ sig
     //@| fn trans_mut(&mut self, i: I) -> Option<&mut Trans<R>>
@@ -474,31 +475,40 @@ impl ChainReducer {
             let (t0, d) = (old(self).trans.m@, old(self).d_deg.g@); let i2 = i.g@ + d;
             let t1 = if t0.dom().contains(i.g@) { t0.insert(i.g@, (mmul(t_src.f@, mmul(pm(q.p@), t0[i.g@].0)), mmul(mmul(t0[i.g@].1, pmi(q.p@)), t_src.b@))) } else { t0 };
             let t2 = if t0.dom().contains(i2) { t1.insert(i2, (mmul(t_tgt.f@, mmul(pm(p.p@), t0[i2].0)), mmul(mmul(t0[i2].1, pmi(p.p@)), t_tgt.b@))) } else { t1 };
-            final(self).trans.m@ == t2 && final(self).mats == old(self).mats && final(self).d_deg == old(self).d_deg
+            final(self).trans.m@ == t2 && final(self).mats == old(self).mats && final(self).d_deg == old(self).d_deg && final(self).vecs == old(self).vecs
         }),
     //@body impl/ChainReducer/update_trans
     //@+ sig
     //@| fn update_trans(&mut self, i: I, p: &PermOwned, q: &PermOwned, t_src: Trans<R>, t_tgt: Trans<R>)
 
-    /// ASSUMED (iter_mut over the tracked vectors, extract / split closures, triangular solves): touches only `vecs`
-    #[verifier::external_body] pub fn update_vecs(&mut self, i: Deg, a: &SpMat, p: &PermOwned, q: &PermOwned, r: usize, t: TriangularType)
-        ensures final(self).mats == old(self).mats, final(self).trans == old(self).trans, final(self).d_deg == old(self).d_deg { unimplemented!() }
+    /// transport of the tracked vectors: proved in unit chain_vecs on the repository's body
+//@if B
+//@contract-of units/chain_vecs/contract.rs update_vecs variant=B
+//@else
+//@contract-of units/chain_vecs/contract.rs update_vecs variant=A
+//@endif
 
     /// one reduction step at degree i: the differentials still compose to zero, and transfer maps stay transfer maps
     pub fn reduce_at_spec(&mut self, i: Deg, piv_type: PivotType, piv_cond: PivotCondition) -> (res: bool)
         requires old(self).d_deg.g@ != 0, chain_ok(old(self).mats.m@, old(self).d_deg.g@),
 //@if B
             old(self).mats.m@.dom().contains(i.g@),
+            // the tracked vectors have the dimensions of their chain groups
+            old(self).vecs.m@.dom().contains(i.g@) ==> all_cols(old(self).vecs.m@[i.g@], nc(old(self).mats.m@[i.g@])),
+            old(self).vecs.m@.dom().contains(i.g@ + old(self).d_deg.g@) ==> all_cols(old(self).vecs.m@[i.g@ + old(self).d_deg.g@], nr(old(self).mats.m@[i.g@])),
 //@endif
         ensures old(self).mats.m@.dom().contains(i.g@), chain_ok(final(self).mats.m@, old(self).d_deg.g@), final(self).d_deg == old(self).d_deg,
             !res ==> (final(self).mats == old(self).mats && final(self).trans == old(self).trans),
             // for every original complex dd the maps were transfer maps to, they still are
             forall|dd: Map<int, int>| #[trigger] tmap_ok(dd, old(self).mats.m@, old(self).trans.m@, old(self).d_deg.g@) ==> tmap_ok(dd, final(self).mats.m@, final(self).trans.m@, old(self).d_deg.g@),
+            // tracked vectors stay the images of their originals under the reported forward maps
+            !res ==> final(self).vecs == old(self).vecs,
+            forall|orig: Map<int, Seq<int>>| #[trigger] vec_ok(old(self).trans.m@, old(self).vecs.m@, orig) ==> vec_ok(final(self).trans.m@, final(self).vecs.m@, orig),
     //@body impl/ChainReducer/reduce_at_spec for_iter=1 ring=1 machine=r q=i,d_deg qname=d
     //@+ sig
     //@| fn reduce_at_spec(&mut self, i: I, piv_type: PivotType, piv_cond: PivotCondition) -> bool
     //@+ pre-raw
-    //@| let ghost (m0, t0, dd) = (self.mats.m@, self.trans.m@, self.d_deg.g@);
+    //@| let ghost (m0, t0, dd) = (self.mats.m@, self.trans.m@, self.d_deg.g@); let ghost vs0 = self.vecs.m@;
     //@| let ghost mut gs = 0int; let ghost mut ap = 0int; let ghost mut gft = 0int; let ghost mut gbs = 0int; let ghost mut blk = (0int, 0int, 0int, 0int);
     //@+ after-let r
     //@| bx_perm(p.p@); bx_perm(q.p@);
@@ -523,6 +533,29 @@ impl ChainReducer {
     //@|     tmap_ok(o, new_mats(m0, dd, i.g@, p.p@, q.p@, r as int, gs), if with_trans { new_trans(t0, dd, i.g@, p.p@, q.p@, (mconcat(mzero(n - r, r as int), mid(n - r)), bs), (ft, mstack(mzero(r as int, m - r), mid(m - r)))) } else { t0 }, dd) by {
     //@|     lemma_tmap_step(t, o, m0, t0, dd, i.g@, p.p@, q.p@, r as int, gs, ft, bs, a4, b4, c4, d4, with_trans);
     //@|     if !with_trans { lemma_no_trans(t, ap, gs, r as int, ft, bs, a4, b4, c4, d4); }
+    //@| }
+    //@+ post
+    //@| if __ret {
+    //@|     let (a4, b4, c4, d4) = blk; let (m, n) = (nr(ap), nc(ap)); let i2 = i.g@ + dd;
+    //@|     let (t2, v1) = (self.trans.m@, self.vecs.m@);
+    //@|     // the blocks update_vecs speaks about are the blocks of the Schur step: a block decomposition with these sizes is unique
+    //@|     if vs0.dom().contains(i2) {
+    //@|         let (a5, b5, c5, d5) = choose|a5: int, b5: int, c5: int, d5: int| #![trigger mstack(mconcat(a5, b5), mconcat(c5, d5))]
+    //@|             ap == mstack(mconcat(a5, b5), mconcat(c5, d5)) && block_dims(a5, b5, c5, d5, r as int, m, n) && tri_ok(t, a5)
+    //@|             && all_cols(vs0[i2], m) && v1[i2].len() == vs0[i2].len()
+    //@|             && forall|k: int| 0 <= k < vs0[i2].len() ==> #[trigger] v1[i2][k] == mmul(f_tgt(a5, c5, m, r as int), mmul(pm(p.p@), vs0[i2][k]));
+    //@|         lemma_blocks_unique(a4, b4, c4, d4, a5, b5, c5, d5, r as int, m, n);
+    //@|         assert(a4 == a5 && c4 == c5);
+    //@|     }
+    //@|     assert forall|orig: Map<int, Seq<int>>| #[trigger] vec_ok(t0, vs0, orig) implies vec_ok(t2, v1, orig) by {
+    //@|         if with_trans {
+    //@|             assert(t2.dom() =~= t0.dom()); assert(v1.dom() =~= vs0.dom());
+    //@|             lemma_vecs_follow(t0, t2, vs0, v1, orig, i.g@, dd, p.p@, q.p@, f_src(n, r as int), gft);
+    //@|         } else {
+    //@|             // no map is tracked at i or i + d: vec_ok says nothing there
+    //@|             assert forall|j: int| v1.dom().contains(j) && t2.dom().contains(j) implies #[trigger] vec_ok_at(t2, v1, orig, j) by { assert(vec_ok_at(t0, vs0, orig, j)); }
+    //@|         }
+    //@|     }
     //@| }
     /// install a differential (and the identity transfer map on its source)
     pub fn set_matrix(&mut self, i: Deg, d: SpMat, with_trans: bool)
